@@ -2,6 +2,7 @@ package sym
 
 import (
 	"fmt"
+	"strings"
 	"go/token"
 	"go/types"
 	"math/big"
@@ -75,7 +76,16 @@ func (in *Interp) byteEq(a, b value) value {
 		if aTok && bTok {
 			return in.tokEq(ta, tb)
 		}
-		panic(unsupported{"comparison of decimal text token with a byte"})
+		// a decimal text token consists of characters from "-.0123456789" only, so it differs from
+		// every other byte; comparing it with one of those characters is not decidable here
+		other := b
+		if bTok {
+			other = a
+		}
+		if c, ok := other.(int64); ok && !strings.ContainsRune("-.0123456789", rune(c)) {
+			return false
+		}
+		panic(unsupported{"comparison of decimal text token with a digit/sign byte"})
 	}
 	ai, ac := a.(int64)
 	bi, bc := b.(int64)
